@@ -620,6 +620,9 @@ ALWAYS_INLINE = {
         "state::dynamic_tick_array::DynamicTickArrayLoader::update_tick_bitmap",
         "pinocchio::state::whirlpool::tick_array::dynamic_tick_array::MemoryMappedDynamicTickArray::update_tick_bitmap",
         "pinocchio::instructions::reposition_liquidity_v2::assert_new_range_token_increase_under_max",
+        "state::dynamic_tick_array::DynamicTickArrayLoader::is_initialized_tick",
+        "manager::whirlpool_manager::next_whirlpool_liquidity",
+        "pinocchio::ported::manager_liquidity_manager::pino_next_whirlpool_liquidity",
         "util::sparse_swap::maybe_load_tick_array",
         "pinocchio::state::whirlpool::position::MemoryMappedPosition::reset_reward_growth_checkpoints",
         "util::swap_utils::perform_swap",
@@ -639,6 +642,7 @@ INLINE_AND_KEEP = {
         "state::whirlpool::Whirlpool::output_token_mint",
         "state::whirlpool::Whirlpool::input_token_vault",
         "state::whirlpool::Whirlpool::output_token_vault",
+        "util::v2::token::verify_supported_token_mint",
     ],
 }
 
@@ -781,7 +785,28 @@ def _thread_fn(rec):
     blocks = rec["blocks"]
     locs = rec["locals"]
     n_threaded = 0
-    for _ in range(6):
+    for _ in range(8):
+        # a test block entered by a single `goto` is one block with its predecessor (a helper spliced in leaves its result in a
+        # block of its own: `r = !t; goto J` + `J: c = !r; switch c`)
+        allp = {}
+        for i, bb in enumerate(blocks):
+            if bb.get("dead"):
+                continue
+            tt = bb["t"]
+            k = tt["k"]
+            nx = [tt["t"]] if k == "goto" else ([x for _, x in tt["ts"]] + [tt["o"]]) if k == "switch" else \
+                ([tt["t"]] if tt.get("t") is not None else []) + ([tt["u"]] if isinstance(tt.get("u"), int) and tt["u"] >= 0 else []) if k in ("call", "drop", "assert") else []
+            for x in nx:
+                allp.setdefault(x, []).append(i)
+        for j, J in enumerate(blocks):
+            if J["t"]["k"] != "switch" or J.get("c") or J.get("dead") or j == 0:
+                continue
+            ps_ = allp.get(j, [])
+            if len(ps_) == 1 and ps_[0] != j and blocks[ps_[0]]["t"]["k"] == "goto" and not blocks[ps_[0]].get("c"):
+                P = blocks[ps_[0]]
+                P["s"].extend(J["s"])
+                P["t"] = J["t"]
+                blocks[j] = {"s": [], "t": {"k": "unreachable"}, "c": 1, "dead": 1}
         uses = _count_uses(rec)
         preds = {}
         for i, bb in enumerate(blocks):
@@ -884,6 +909,40 @@ def _thread_fn(rec):
             break
         if not changed:
             break
+    # a test whose operand is, within its own block, a (negated) copy of a constant is no test
+    before_fold = _reachable(rec)
+    n_before = n_threaded
+    for J in blocks:
+        t = J["t"]
+        if t["k"] != "switch" or J.get("dead"):
+            continue
+        cur = _operand_local(t["d"])
+        neg = False
+        val = None
+        for st in reversed(J["s"]):
+            if cur is None:
+                break
+            if st["k"] != "=" or st["p"].get("p") or st["p"]["l"] != cur:
+                continue
+            rv = st["rv"]
+            if "use" in rv and isinstance(rv["use"].get("k"), dict) and rv["use"]["k"].get("ty") == "bool":
+                val = str(rv["use"]["k"].get("v")) not in ("0", "false")
+                break
+            if "use" in rv and _operand_local(rv["use"]) is not None:
+                cur = _operand_local(rv["use"])
+            elif rv.get("un") == "Not" and _operand_local(rv["a"]) is not None:
+                cur = _operand_local(rv["a"])
+                neg = not neg
+            else:
+                break
+        if val is not None:
+            v = (not val) if neg else val
+            arms = {str(a): b for a, b in t["ts"]}
+            J["t"] = {"k": "goto", "t": arms.get("1" if v else "0", t["o"])}
+            n_before -= 1
+    if n_threaded != n_before:
+        _neutralise(rec, before_fold)
+        rec["_folded"] = 1
     return n_threaded
 
 
@@ -893,8 +952,9 @@ def thread_booleans(facts):
         if f.kind == "const":
             continue
         n = _thread_fn(f.rec)
-        if n:
+        if n or f.rec.pop("_folded", None):
             f.refresh()
+        if n:
             log.append("threaded %d edge(s) over a materialised boolean in %s" % (n, f.path))
     return log
 
